@@ -382,6 +382,10 @@ func registerVerifrt() {
 		S.now = target
 		return quiesceOthers()
 	})
+	// processes: goroutines started while the current goroutine carries tag n inherit it;
+	// KillProcess(n) stops all of them for good (a crashed process)
+	ext(p+"SetProcess", func(fr *frame, a []value) value { S.cur.proc = int(asInt64(a[0])); return nil })
+	ext(p+"KillProcess", func(fr *frame, a []value) value { S.killProcess(int(asInt64(a[0]))); return nil })
 	ext(p+"BlockedDesc", func(fr *frame, a []value) value { return S.describeBlocked() })
 	ext(p+"FireTimer", func(fr *frame, a []value) value { return S.fireTimer() })
 }
@@ -393,7 +397,7 @@ func quiesceOthers() int {
 	for {
 		var other *thread
 		for _, t := range S.threads {
-			if t != self && !t.done && (t.blocked == nil || t.blocked()) {
+			if t != self && !t.done && !t.killed && (t.blocked == nil || t.blocked()) {
 				other = t
 				break
 			}
@@ -416,7 +420,7 @@ func quiesceOthers() int {
 	}
 	n := 0
 	for _, t := range S.threads {
-		if t != self && !t.done {
+		if t != self && !t.done && !t.killed {
 			n++
 		}
 	}
